@@ -151,6 +151,16 @@ def run_check(prop, tier, seed=0):
                 by_rule = collections.defaultdict(list)
                 for o in failing:
                     by_rule[o["rule"]].append(o)
+                # a floor that fails because a refactoring merged duplicated sites (5 write-back sites -> 4 behind one helper) is
+                # not a vanished anchor: on the inlined evaluation a shortfall of up to a half is tolerated as long as the rule
+                # still has instances and none of them fails
+                for rid in list(v2):
+                    fk = "%s:floor" % rid
+                    r2_ = c2.rules.get(rid)
+                    if fk in v2[rid] and r2_ and r2_.get("floor"):
+                        others = [k for k in v2[rid] if k != fk]
+                        if not others and r2_["instances"] >= max(1, -(-r2_["floor"] // 2)):
+                            del v2[rid][fk]
                 for rid, obls in by_rule.items():
                     keys1 = {o["key"] for o in obls}
                     common = keys1 & set(v2.get(rid, {}))
